@@ -123,3 +123,7 @@ def _run(kind, chunk, key, op, data, path, sizes, rng):
             shellimpl.drop_machine(key)
     tx_r, pc_r = bytes(io.tx[n_tx:]), io.pieces[n_pc:]
     return ";".join([ret, content, back, hx(tx_w), hx(tx_r), lst(map(str, pc_w)), lst(map(str, pc_r))])
+
+
+import verbosity  # noqa: E402
+run_case = verbosity.wrap(run_case)   # one case in eight runs at Verbosity.CHANNEL
